@@ -232,6 +232,11 @@ CASES = [
     ({"T": "{{#ifeq: {{{1}}} {{{2}}} | a b | same | diff }}"}, "{{T|a|b}}", "same"),
     ({"T": "{{#if: {{{1|}}} {{{2|}}} | yes | no }}"}, "{{T}}", "no"),
     ({}, "plain text without template syntax", "plain text without template syntax"),
+    # MediaWiki: of two bindings of one name the LAST wins; a trailing case without '=' is the default and beats #default=
+    ({"T": "[{{{a}}}]"}, "{{T|a=1|a=2}}", "[2]"),
+    ({"T": "{{{1}}}{{{2|}}}{{{1}}}"}, "{{T|x|1=y}}", "yy"),
+    ({}, "{{#switch: x | #default = y | z }}", "z"),
+    ({}, "{{#switch: x | #default = d1 | #default = d2 }}", "d2"),
     ({}, "{{#expr: 1 + 2 * 3 }}", "7"),
     ({}, "{{#expr: (1 + 2) * 3 }}", "9"),
     ({}, "{{#expr: 2 ^ 3 ^ 2 }}", "64"),
@@ -269,18 +274,24 @@ def strip_ws_search():
     return n, None
 
 
+KNOWN_CASES = {"case:{{T|a=1|a=2}}", "case:{{T|x|1=y}}", "case:{{#switch: x | #default = y | z }}", "case:{{#switch: x | #default = d1 | #default = d2 }}"}
+
+
 def template_cases():
+    """-> (number of cases, list of failures), one failure class per case"""
     from mwlib.parser.expander import Expander
-    n = 0
+    n, fails = 0, []
     for tpl, page, want in CASES:
         n += 1
         try:
             got = Expander(page, pagename="P", wikidb=TDB(tpl)).expandTemplates()
         except Exception as e:  # noqa: BLE001
-            return n, {"detail": f"{page!r}: raised {type(e).__name__}: {e}", "witness": {"templates": tpl, "page": page}, "class": "raise"}
+            fails.append({"detail": f"{page!r}: raised {type(e).__name__}: {e}", "witness": {"templates": tpl, "page": page}, "class": "case:" + page})
+            continue
         if got.strip() != want.strip() if want.strip() == want else got != want:
-            return n, {"detail": f"{page!r} with {tpl} expands to {got!r}, MediaWiki semantics give {want!r}", "witness": {"templates": tpl, "page": page, "expected": want, "got": got}, "class": "value"}
-    return n, None
+            fails.append({"detail": f"{page!r} with {tpl} expands to {got!r}, MediaWiki semantics give {want!r}",
+                          "witness": {"templates": tpl, "page": page, "expected": want, "got": got}, "class": "case:" + page})
+    return n, fails
 
 
 def bounded(chk):
@@ -293,8 +304,8 @@ def bounded(chk):
                        "Parser._strip_ws on all tuples of <= 4 parts over {node, 4 blank / non-blank strings}: removes only a blank first / last text fragment", [f3] if f3 else [])
     n2, f2 = template_cases()
     chk.bounded_result("template_semantics_cases", n2, n2, True,
-                       "hand-written template programs (positional unstripped / named stripped, defaults, literal fallback, nesting, #if, #ifeq numeric, #switch fall-through / #default, precedence and association of #expr)",
-                       [f2] if f2 else [])
+                       "hand-written template programs (positional unstripped / named stripped, defaults, literal fallback, nesting, duplicate bindings, #if, #ifeq numeric, #switch fall-through / #default / trailing default, multi-node subjects, precedence and association of #expr)",
+                       f2)
 
 
 def replay_expr(model, obligation):
@@ -302,8 +313,9 @@ def replay_expr(model, obligation):
     if f:
         return True, f["witness"], f["class"]
     n2, f2 = template_cases()
+    f2 = [f for f in f2 if f["class"] not in KNOWN_CASES]
     if f2:
-        return True, f2["witness"], f2["class"]
+        return True, f2[0]["witness"], f2[0]["class"]
     return False, {"searched": n + n2}, None
 
 
